@@ -26,10 +26,15 @@ type c19Case struct {
 	Direct     string   // none own@1 own@pt- own@pt+ own@i- own@i+ stale@1 foreign@1 third@1
 	Helpers    []string // per helper: silent ack@pt+ ack@i- ack@i+ nack nack+ack dupnack nackforeign
 	TCP        string   // disabled refused ackown ackwrong stall garbage
+	SendErr    string   `json:",omitempty"` // answer of the transport to the direct ping: "" (sent), "local" (plain error), "remote" (udp write error)
 }
 
 func (c c19Case) String() string {
-	return fmt.Sprintf("indirect=%d pmax=%d score=%d direct=%s helpers=%v tcp=%s", c.Indirect, c.HelperPMax, c.Score, c.Direct, c.Helpers, c.TCP)
+	se := ""
+	if c.SendErr != "" {
+		se = " ping-send-error=" + c.SendErr
+	}
+	return fmt.Sprintf("indirect=%d pmax=%d score=%d direct=%s helpers=%v tcp=%s%s", c.Indirect, c.HelperPMax, c.Score, c.Direct, c.Helpers, c.TCP, se)
 }
 
 type c19Expect struct {
@@ -144,10 +149,58 @@ func c19RunProbe(t *testing.T, c c19Case) (sig, msg string) {
 			return c1, nil
 		}
 		o.T.TakeSent()
+		if c.SendErr != "" {
+			o.T.FailSend = func(p sentPkt) error {
+				if p.To != "10.0.0.2:7946" {
+					return nil
+				}
+				leaves, _ := explode(p.Buf)
+				for _, l := range leaves {
+					var pg ml.VPing
+					if l[0] == ml.VPingMsg && ml.VDecode(l[1:], &pg) == nil && pg.Node == "x" {
+						pingSeq = pg.SeqNo
+					}
+				}
+				if c.SendErr == "remote" {
+					return &net.OpError{Op: "write", Net: "udp", Err: fmt.Errorf("connection refused")}
+				}
+				return fmt.Errorf("sendto: operation not permitted")
+			}
+		}
 		t0 := time.Now()
 		done := make(chan struct{})
 		go func() { o.M.VProbeNodeByName("x"); close(done) }()
 		settle()
+		if c.SendErr == "local" {
+			// the probe was never handed to the network: it is neither a failed nor a
+			// successful probe. Nothing may follow from it.
+			if d := interval + time.Microsecond - time.Since(t0); d > 0 {
+				time.Sleep(d)
+			}
+			settle()
+			s := o.M.VSnapshot()
+			select {
+			case <-done:
+			default:
+				sig, msg = "probe-overran-deadline", c.String()
+				return
+			}
+			switch x := findRec(s, "x"); {
+			case pingSeq == 0:
+				sig, msg = "no-ping-sent", c.String()
+			case s.AckHandlers != 0:
+				sig, msg = "pending-probe-record-leaked", fmt.Sprintf("%v: %d pending records one microsecond after the deadline", c, s.AckHandlers)
+			case x.State != ml.StateAlive:
+				sig, msg = "unsent-probe-suspected", fmt.Sprintf("%v: the ping never left this node, yet x is %s", c, recStr(x))
+			case s.Health < c.Score:
+				sig, msg = "health-fell-without-successful-probe", fmt.Sprintf("%v: score %d -> %d although no probe was sent, let alone answered", c, c.Score, s.Health)
+			case s.Health > c.Score:
+				sig, msg = "health-rose-without-failed-probe", fmt.Sprintf("%v: score %d -> %d although no probe was sent", c, c.Score, s.Health)
+			case o.T.NumSent() != 0:
+				sig, msg = "unsent-probe-went-on", fmt.Sprintf("%v: %d packets followed", c, o.T.NumSent())
+			}
+			return
+		}
 		// the ping
 		type sched struct {
 			at  time.Duration
@@ -272,6 +325,11 @@ func c19RunProbe(t *testing.T, c c19Case) (sig, msg string) {
 		if want > 7 {
 			want = 7
 		}
+		if c.SendErr == "remote" && exp.Answered && s.Health == c.Score {
+			// the direct ping was refused and a relayed ack saved the probe: the statement lets the
+			// score fall on a successful probe, it does not demand it (the code leaves it unchanged)
+			want = c.Score
+		}
 		if s.Health != want {
 			sig = "health-score"
 			if !exp.Answered && s.Health < c.Score {
@@ -305,8 +363,9 @@ func c19RunProbe(t *testing.T, c c19Case) (sig, msg string) {
 // ---------------------------------------------------------------- relay
 
 type c19Relay struct {
-	Nack   bool
-	Target string // never ack@1 ack@pt- ack@pt+ twice foreign foreign+own
+	Nack    bool
+	Target  string // never ack@1 ack@pt- ack@pt+ twice foreign foreign+own
+	SendErr string `json:",omitempty"` // answer of the relay's transport to its ping: "" (sent), "local", "remote"
 }
 
 func c19RunRelay(t *testing.T, c c19Relay) (sig, msg string) {
@@ -323,12 +382,25 @@ func c19RunRelay(t *testing.T, c c19Relay) (sig, msg string) {
 		req := &ml.VIndirectPingReq{SeqNo: R, Target: ip4(2), Port: 7946, Node: "x", Nack: c.Nack, SourceAddr: ip4(50), SourcePort: 7946, SourceNode: "q"}
 		buf, _ := ml.VEncode(ml.VIndirectPingMsg, req, false)
 		o.T.TakeSent()
+		var refused []sentPkt
+		if c.SendErr != "" {
+			o.T.FailSend = func(p sentPkt) error {
+				if p.To != "10.0.0.2:7946" {
+					return nil
+				}
+				refused = append(refused, p)
+				if c.SendErr == "remote" {
+					return &net.OpError{Op: "write", Net: "udp", Err: fmt.Errorf("connection refused")}
+				}
+				return fmt.Errorf("sendto: network is unreachable")
+			}
+		}
 		t0 := time.Now()
 		o.T.Deliver(buf, simAddr("10.0.0.50:7946"))
 		settle()
 		var L uint32
 		pings := 0
-		for _, p := range o.T.TakeSent() {
+		for _, p := range append(o.T.TakeSent(), refused...) {
 			leaves, _ := explode(p.Buf)
 			for _, l := range leaves {
 				var pg ml.VPing
@@ -560,13 +632,41 @@ func TestC19(t *testing.T) {
 	for _, d := range []string{"none", "own@pt+"} {
 		run(c19Case{Indirect: 3, HelperPMax: 5, Score: 0, Direct: d, Helpers: []string{"nack"}, TCP: "refused"})
 	}
+	// the transport refuses the direct ping (an environment answer)
+	for _, se := range []string{"local", "remote"} {
+		for _, sc := range []int{0, 3, 7} {
+			for _, tc := range []string{"disabled", "refused", "ackown", "stall"} {
+				run(c19Case{Indirect: 0, HelperPMax: 5, Score: sc, Direct: "none", TCP: tc, SendErr: se})
+				for _, h := range []string{"silent", "nack", "ack@i-", "ack@pt+"} {
+					for _, pm := range []uint8{3, 5} {
+						run(c19Case{Indirect: 1, HelperPMax: pm, Score: sc, Direct: "none", Helpers: []string{h}, TCP: tc, SendErr: se})
+						run(c19Case{Indirect: 3, HelperPMax: pm, Score: sc, Direct: "none", Helpers: []string{h, "silent", "nack"}, TCP: tc, SendErr: se})
+					}
+				}
+			}
+		}
+	}
+	type relayCell struct {
+		nk bool
+		tg string
+		se string
+	}
+	var relays []relayCell
 	for _, nk := range []bool{false, true} {
 		for _, tg := range []string{"never", "ack@1", "ack@pt-", "ack@pt+", "twice", "foreign", "foreign+own"} {
+			relays = append(relays, relayCell{nk, tg, ""})
+		}
+		// the relay's own transport refuses the ping to the target: nothing can come back
+		relays = append(relays, relayCell{nk, "never", "local"}, relayCell{nk, "never", "remote"})
+	}
+	for _, rc := range relays {
+		{
+			nk, tg := rc.nk, rc.tg
 			idx++
 			if !mine(idx) {
 				continue
 			}
-			c := c19Relay{nk, tg}
+			c := c19Relay{nk, tg, rc.se}
 			journal("C19 relay %v", c)
 			sig, msg := c19RunRelay(t, c)
 			rep.Transitions++
@@ -574,7 +674,7 @@ func TestC19(t *testing.T) {
 			if sig != "" {
 				rep.Violate(sig, msg, c19Replay{Relay: &c})
 			} else {
-				rep.Outcome(fmt.Sprintf("relay nack=%v %s ok", nk, tg))
+				rep.Outcome(fmt.Sprintf("relay nack=%v %s %s ok", nk, tg, rc.se))
 			}
 		}
 	}
